@@ -523,6 +523,23 @@ fn judge_lex_spans(p: &Prepared, input: &str, rep: &mut Rep) {
         rep.count("panic_or_step_budget_not_judged_here", 1);
         return;
     };
+    for side in &p.lr {
+        dynp::set_step_limit(STEP_BUDGET);
+        if let Ok(Ok(t)) = guarded(|| side.dy.lr_parse(input)) {
+            let mut sc = SpanChk::new(input);
+            sc.node(&t);
+            rep.count("trees_checked", 1);
+            rep.count("lexical_family_lr_trees", 1);
+            rep.count("nodes_checked", count_nodes(&t) as u64);
+            if sc.empties > 0 {
+                rep.distinct("nontrivial", fnv(&format!("{}|lr|{}", p.text, input)));
+            }
+            let errs = sc.finish();
+            if !errs.is_empty() {
+                rep.violation("C13", &format!("lex-lr-span:{}:{}", fnv(&p.text), fnv(input)), &format!("LR tree (lexically overlapping terminals): {}", errs.join("; ")), case(json!({"algo": "LR", "tree": dynp::shown(&t)})));
+            }
+        }
+    }
     let n = out.len();
     for (i, nodes, empties, errs, shown) in out {
         rep.count("trees_checked", 1);
@@ -598,7 +615,18 @@ pub fn run_lex_grammar(g: &AG, wd: &Workdir, rep: &mut Rep, maxlen: usize, only:
     };
     let Ok(dy) = Dyn::new(&d, spec.dyn_cfg()) else { return };
     rep.count("grammars_in_scope", 1);
-    let p = Prepared { g: g.clone(), text, cyclic: false, glr_scope: true, glr: Some((d, dy)), lr: vec![], lex: true, family: 0 };
+    // C13 also walks the LR tree of the same texts (conflicts settled by prefer-shift, lexical choice by the default strategies)
+    let mut lr = vec![];
+    if prop == "C13" {
+        let lspec = SetSpec { ps: Some(true), pse: Some(true), ..SetSpec::lr(0) };
+        let c = wd.compile(&text, &lspec);
+        if let (Outcome::Ok, Some(d)) = (&c.outcome, c.dump) {
+            if let Ok(dy) = Dyn::new(&d, lspec.dyn_cfg()) {
+                lr.push(LrSide { table: 0, dump: d, dy });
+            }
+        }
+    }
+    let p = Prepared { g: g.clone(), text, cyclic: false, glr_scope: true, glr: Some((d, dy)), lr, lex: true, family: 0 };
     let judge = |p: &Prepared, i: &str, rep: &mut Rep| if prop == "C13" { judge_lex_spans(p, i, rep) } else { judge_lex_input(p, i, rep) };
     match only {
         Some(i) => judge(&p, i, rep),
